@@ -197,7 +197,24 @@ class Symbolizer:
     def call(self, t, depth=0, stack=()):
         name = t.callee_res()
         args = tuple(self.operand(a, depth, stack) for a in t.args)
-        if name is None:
+        if name is not None and name.endswith('box_assume_init_into_vec_unsafe'):
+            # `vec![a, b]` lowers to Box::new_uninit + a store of the array through the box pointer + this call: the elements are not
+            # in the value flow of the argument, so the array written in the same block stands for it
+            bb_, hops, found = t.bb, 0, False
+            while not found and hops < 4:
+                for s in reversed(self.body.blocks[bb_].stmts):
+                    if s.kind == 'assign' and s.lhs.proj and isinstance(getattr(s.rv, 'raw', None), dict) and s.rv.raw.get('k') == 'agg' and s.rv.raw.get('agg') == 'array':
+                        try:
+                            args = (self.rvalue(s.rv, depth, stack),)
+                        except Exception:
+                            pass
+                        found = True
+                        break
+                # the store may sit in the block before the call (an alignment assertion of the box pointer in between)
+                pr = [p_ for p_ in self.body.pred[bb_] if not self.body.blocks[p_].cleanup]
+                if found or len(pr) != 1:
+                    break
+                bb_, hops = pr[0], hops + 1
             # indirect call through a value
             return ('call', '<indirect>', (self.operand(t.func, depth, stack),) + args, t.bb)
         return ('call', name, args, t.bb)
@@ -311,6 +328,13 @@ def _simplify(t):
             return base
         if base[0] == 'const' and f in (0, '0') and isinstance(t[1], tuple) and t[1] and t[1][0] == 'bin':
             return base      # the value component of a checked operation that folded to a constant
+        if isinstance(f, int):
+            # a component of a tuple that is written out: `(a, b).0` is a (also through the reference a closure pattern `&(a, _)` adds)
+            tb = base
+            while isinstance(tb, tuple) and tb and tb[0] in ('ref', 'deref', 'copy', 'move') and len(tb) > 1 and isinstance(tb[1], tuple):
+                tb = tb[1]
+            if isinstance(tb, tuple) and tb and tb[0] == 'agg' and tb[1] == 'tuple' and f < len(tb[3]):
+                return tb[3][f]
         if base[0] == 'variant':
             vb, vn = base[1], base[2]
             if vn in ('Some', 'Ok', 'Continue') and f in (0, '0'):
@@ -800,6 +824,34 @@ def guard_variants(body, g):
     else:
         sel = {n for i, n in enumerate(names) if i not in g.excluded}
     return t[1], sel
+
+
+def success_of(tree, names):
+    """normalise a variant fact about a Result/Option through the wrappers that only rename the variants: `Try::branch(x)` (Continue =
+    success), `Result::ok(x)` (Some = Ok), `Result::err(x)`, `Option::ok_or(x, e)`: returns (innermost tree, True for success / False
+    for failure) or None when `names` is not a single success/failure variant"""
+    names = set(names)
+    if names <= {'Ok', 'Some', 'Continue'} and names:
+        pol = True
+    elif names <= {'Err', 'None', 'Break'} and names:
+        pol = False
+    else:
+        return None
+    t = tree
+    while True:
+        c = nosite(t)
+        while isinstance(c, tuple) and c and c[0] in ('ref', 'deref', 'copy', 'move') and len(c) > 1 and isinstance(c[1], tuple):
+            c = c[1]
+        if isinstance(c, tuple) and c and c[0] == 'call' and c[2]:
+            n = c[1].rsplit('::', 1)[-1]
+            if n in ('branch', 'ok', 'ok_or', 'ok_or_else', 'as_ref', 'as_mut', 'map_err', 'into_iter') and ('Result' in c[1] or 'Option' in c[1] or 'Try' in c[1]):
+                t = c[2][0]
+                continue
+            if n == 'err' and 'Result' in c[1]:
+                t = c[2][0]
+                pol = not pol
+                continue
+        return c, pol
 
 
 def variant_facts_at(body, b):
